@@ -8,7 +8,7 @@ from vlib import engine, gen, kal, oracle
 ID = "C03"
 RULE = ("Named sets of 2..150 sequences (quick; thorough up to 400) on both sides of the 100-sequence switch, with many "
         "equal-length members and exact duplicates under different names (so the name tie-break decides), pairwise distinct "
-        "names, and a permutation (Hypothesis permutation for small sets, reverse / rotate / seeded shuffle for large); type, "
+        "names (one case in four uses multi-word FASTA headers in which groups of records share their first word), and a permutation (Hypothesis permutation for small sets, reverse / rotate / seeded shuffle for large); type, "
         "penalties, threads; through read+run+dump and through the CLI (-o, FASTA). Oracle: row(name) and alignment length "
         "identical in both runs, rows in each run's own input order. Non-trivial = permutation != identity, >= 3 sequences, "
         "gaps present; distinct by hash of the case.")
@@ -42,7 +42,13 @@ def cases(draw, tier):
         seqs = draw(gen.seqsets(kind=k, max_n=50, max_len=250))["seqs"]
     else:
         seqs = draw(gen.big_family(alpha, min_n=100, max_n=150 if not big else 400, max_len=60))
-    names = draw(gen.names_for(len(seqs)))
+    nmode = draw(st.sampled_from(["plain", "plain", "plain", "words"]))
+    if nmode == "plain":
+        names = draw(gen.names_for(len(seqs)))
+    else:
+        # FASTA headers are whole lines: several words, groups of records sharing their first word(s)
+        firsts = draw(st.lists(st.text(alphabet=gen.NAME_CHARS, min_size=1, max_size=8), min_size=1, max_size=3, unique=True))
+        names = ["%s %s %d" % (firsts[i % len(firsts)], draw(st.sampled_from(["part", "chain", "x", "isoform A", ""])), i) for i in range(len(seqs))]
     n = len(seqs)
     pm = draw(st.sampled_from(["perm", "reverse", "rotate", "shuffle"]))
     if pm == "perm" and n <= 12:
@@ -91,6 +97,8 @@ def check(case):
         cl.append("length_ties")
     if len(set(seqs)) < n:
         cl.append("duplicates")
+    if any(" " in x for x in names):
+        cl.append("names_with_blanks")
     try:
         n1, r1 = run(names, seqs, cfg, case["entry"])
         n2, r2 = run([names[i] for i in perm], [seqs[i] for i in perm], cfg, case["entry"])
